@@ -30,7 +30,8 @@ type OpOut struct {
 	PanicVal interface{}
 	Stack    string
 	Class    string
-	Ev0, Ev1 int // this op's events are Log[Ev0:Ev1]
+	Ev0, Ev1 int           // this op's events are Log[Ev0:Ev1]
+	Wall     time.Duration // duration of the API call (monotonic clock; an upper bound for anything measured inside it)
 
 	// Introspection
 	HasInfo     bool
@@ -199,9 +200,11 @@ func Run(c *Case, ro RunOpts) *Trace {
 		opts = append(opts, dig.DryRun(false))
 	}
 	opts = append(opts, dig.VerifSeedRand(1))
-	clockOpt, advance := dig.VerifMockClock()
-	opts = append(opts, clockOpt)
-	rt.advance = advance
+	if !cfg.SysClock {
+		clockOpt, advance := dig.VerifMockClock()
+		opts = append(opts, clockOpt)
+		rt.advance = advance
+	}
 
 	container := dig.New(opts...)
 	scopes := []scopeAPI{container}
@@ -276,6 +279,7 @@ func Run(c *Case, ro RunOpts) *Trace {
 		}
 		rt.curOp = i
 		out.Ev0 = len(rt.Log)
+		opStart := time.Now() // only read to bound callback Runtimes under Cfg.SysClock
 		func() {
 			defer func() {
 				if p := recover(); p != nil {
@@ -305,6 +309,7 @@ func Run(c *Case, ro RunOpts) *Trace {
 				out.Text = getScope(op.S).String()
 			}
 		}()
+		out.Wall = time.Since(opStart)
 		out.Ev1 = len(rt.Log)
 		if out.Err == nil && !out.Panicked && op.F != nil {
 			switch op.K {
